@@ -4,6 +4,7 @@ import (
 	"bytes"
 	"fmt"
 	"html"
+	"regexp"
 	"strings"
 
 	xhtml "golang.org/x/net/html"
@@ -43,9 +44,11 @@ var c02Opts = htmlcmp.Options{Values: true, RawText: true, KeepDoctype: true}
 
 // c02IsDoc: the template source is a full document (decided on the source alone, not with
 // vuego's own "</html>" heuristic); source and output are then both parsed as documents.
+var c02HTMLTagRe = regexp.MustCompile(`<html([\s/>]|$)`)
+
 func c02IsDoc(src string) bool {
 	l := strings.ToLower(src)
-	return strings.Contains(l, "<html") || strings.Contains(l, "<!doctype")
+	return c02HTMLTagRe.MatchString(l) || strings.Contains(l, "<!doctype")
 }
 
 // c02NoScript: the case under test contains <noscript> (set per case; workers are single-threaded)
